@@ -81,7 +81,7 @@ def run(ctx):
     ng = gate([job(2, "mixed", "lb", "det", "sphere_out", "half", seeds[0]), job(1, "log", "ub", "decl", "sphere_corner", None, seeds[0])])
     sink = E1Sink(rep, PID)
     Ds = (1, 2) if q else (1, 2, 3)
-    geos = ("lin", "tight", "log", "mixed", "unb", "log2", "lin2", "mixunb")
+    geos = ("lin", "tight", "log", "mixed", "unb", "log2", "lin2", "mixunb", "log3")
     # (a) complete product, b=0
     base = []
     for D in Ds:
@@ -90,7 +90,7 @@ def run(ctx):
                 continue
             for x0 in ("in", "lb", "ub", "absent"):
                 for mode in ("det", "auto", "decl"):
-                    for tgt in (("adv", "sphere_in", "sphere_corner", "sphere_out") if mode == "det" else ("sphere_corner", "sphere_out")):
+                    for tgt in (("adv", "sphere_in", "sphere_corner", "sphere_out", "sphere_below") if mode == "det" else ("sphere_corner", "sphere_out")):
                         for cons in (None, "half"):
                             if q and mode != "det" and (x0 in ("absent",) or cons == "half") and g in ("tight", "unb"):
                                 continue
@@ -106,7 +106,7 @@ def run(ctx):
     nz = [job(D, g, "ub", m, "sphere_out", None, seeds[0]) for D in Ds[:2] for g in ("lin", "log") for m in ("decl",)]
     st = explore(nz, ["noise"], 1, sink, stats=st, name="noisy/b1", pos_ok=lambda k, p, r: p % (6 if q else 2) == 0)
     # (d) long runs pressing against the faces
-    lg = [job(D, g, "in", "det", "sphere_out", None, s, opts={"tol_mesh": 1e-6, "max_fun_evals": 150}) for D in Ds for g in ("lin", "log", "mixed", "log2", "lin2") if not (g == "mixed" and D == 1) for s in seeds]
+    lg = [job(D, g, "in", "det", t, None, s, opts={"tol_mesh": 1e-6, "max_fun_evals": 150}) for D in Ds for g in ("lin", "log", "mixed", "log2", "lin2", "log3") for t in ("sphere_out", "sphere_below") if not (g == "mixed" and D == 1) for s in seeds]
     st = explore(lg, ["ans"], 0, sink, stats=st, name="long/faces")
     # (g) starts just beyond the 0.1% margin of a hard bound, also with coarse search grids (the snapped start may cross the bound)
     nb = [job(D, g, x0, "det", "sphere_out", None, seeds[0], opts=dict(o, max_fun_evals=12, tol_mesh=1e-6)) for D in (1, 2) for g in ("lin", "lin2", "log", "log2", "tight")
